@@ -80,7 +80,7 @@ def gen_cases(seed, tier):
             combos += [(0, 0.5), (1, 2)]
         for (g, e) in combos:
             pn, pp = PROBLEMS[int(rng.integers(0, len(PROBLEMS)))]
-            cases.append(dict(kind="routes", solver=sv, gamma=g, epsilon=e, pname=pn, pparams=pp, devices=1,
+            cases.append(dict(kind="routes", solver=sv, gamma=g, epsilon=e, pname=pn, pparams=pp, devices=1, opt=len(cases),
                               period=int(rng.integers(2, 4)), mb=int(rng.choice([3, 64, 1024]))))
     for (field, val, svs) in SOLVER_REJECTS:
         for sv in svs:
@@ -112,8 +112,15 @@ def _norm(x):
     return x
 
 
-def _solver_kwargs(sv, g, e, period, mb):
-    kw = dict(gamma=g, epsilon=e, max_batch_size=mb, verbose=0)
+def _solver_kwargs(sv, g, e, period, mb, opt=0):
+    kw = dict(gamma=g, epsilon=e, max_batch_size=mb, verbose=opt % 5)
+    # solver-specific options cycle with the case index: every route must carry them identically
+    if sv in ("vi", "sa", "pi"):
+        kw["convergence_test"] = ["span", "max_diff"][opt % 2]
+    if sv == "sa":
+        kw.update(shuffle_states=bool((opt // 2) % 2), random_seed=1000 + opt)
+    if sv == "pi":
+        kw.update(max_eval_iter=[100, 7, 1][opt % 3], reset_values_for_each_policy_eval=bool((opt // 3) % 2))
     if sv == "rvi":
         kw.pop("gamma")
     if sv == "per":
@@ -145,7 +152,7 @@ def _routes(case):
     K = 4
     tmp = tempfile.mkdtemp(prefix="vf_c20_")
     try:
-        kw = _solver_kwargs(sv, g, e, case["period"], case["mb"])
+        kw = _solver_kwargs(sv, g, e, case["period"], case["mb"], int(case.get("opt", 0)))
         ck = dict(checkpoint_frequency=1, max_checkpoints=2, enable_async_checkpointing=False)
         # route A: kwargs + problem instance
         pa = target.call("construct problem", shipped.make, case["pname"], case["pparams"])
@@ -184,8 +191,11 @@ def _routes(case):
         converged_gamma0 = int(ra.info.iteration) < K
         ra2 = target.call(f"continue route kwargs: {where}", a.solve, 2)
         rc2 = target.call(f"continue route restore: {where}", c.solve, 2)
-        if int(ra2.info.iteration) != int(rc2.info.iteration) or \
-                not np.allclose(np.asarray(ra2.values), np.asarray(rc2.values), rtol=1e-12, atol=0):
+        # (with state shuffling the permutation stream is not part of the saved state: a resumed run
+        # legitimately takes other sweeps - C09 only promises the error bound there)
+        shuffled = bool(kw.get("shuffle_states"))
+        if not shuffled and (int(ra2.info.iteration) != int(rc2.info.iteration) or
+                             not np.allclose(np.asarray(ra2.values), np.asarray(rc2.values), rtol=1e-12, atol=0)):
             return dict(status="violation", kind="routes-differ",
                         detail=f"{where}: continuing after restore() differs from continuing the original solver")
         for s_ in (a, b, c):
@@ -207,6 +217,7 @@ def _reject_solver(case):
 
     sv, field, val = case["solver"], case["field"], case["value"]
     kw = _solver_kwargs(sv, 0.9, 1e-3, 2, 64)
+    kw["verbose"] = 0
     if field == "period@gamma1":
         kw.update(gamma=1.0, period=val)
     elif sv == "rvi" and field == "gamma":
